@@ -429,8 +429,8 @@ def run_shard(ctx, spec):
 
 
 def plan(tier, seed):
-    n = 20000 if tier == "quick" else 200000
-    m = 10000 if tier == "quick" else 100000
+    n = 20000 if tier == "quick" else 500000
+    m = 10000 if tier == "quick" else 250000
     return [("spans", n // 16, i) for i in range(16)] + [("snippets", m // 16, i) for i in range(16)] + [("catalogue",)]
 
 
